@@ -1,6 +1,6 @@
 """C02 -- a ULT never runs on two streams at once; its context survives every switch."""
 import json, os, subprocess, time
-from vr import Obl, VERIF, sh
+from vr import Obl, VERIF, REPO, sh
 
 META = {
     "explanation": "E3: the x86-64 fcontext assembly is executed symbolically by an own interpreter (asm/x86sym.py, z3): every save routine followed by every "
@@ -39,7 +39,7 @@ def run_asm(o, tier, workdir):
         r["status"] = "FAILURE"; r["failed"] = [{"id": "asm", "desc": q["name"]} for q in bad]
         # native replay: assemble the real .S and run the canary round trips
         exe = os.path.join(workdir, "c02_native")
-        rc, out, _ = sh(["gcc", "-O0", "-fno-omit-frame-pointer", "-I/repo/src/include", os.path.join(VERIF, "replay/c02_fcontext_native.c"), "/repo/src/arch/fcontext/fcontext_x86_64_sysv_elf_gas.S", "-o", exe], timeout=120)
+        rc, out, _ = sh(["gcc", "-O0", "-fno-omit-frame-pointer", "-I%s/src/include" % REPO, os.path.join(VERIF, "replay/c02_fcontext_native.c"), "%s/src/arch/fcontext/fcontext_x86_64_sysv_elf_gas.S" % REPO, "-o", exe], timeout=120)
         nat = "build failed: " + out[-500:]
         if rc == 0:
             rc2, out2, _ = sh([exe], timeout=60)
